@@ -173,6 +173,18 @@ type c05Op struct {
 	Conn   string `json:"conn,omitempty"`
 }
 
+// Kind "addrproc-burst" (round 7): while the reverse lookup of the address
+// processor's worker is held up (the rig's Exchanger waits at a gate before it
+// calls Server.Exchange), Count plain queries arrive from Count distinct public
+// client addresses (more than the queue of 255 takes), then the admin request
+// in Body (POST access/set) is sent, THEN the gate opens.  The operation is over
+// when every query and the admin request have returned; with the lookups
+// running again nothing may keep them.  Journalled and replayed like an admin
+// request.
+func c05Burst(count int, adminBody string) c05Op {
+	return c05Op{Kind: "addrproc-burst", Qtype: uint16(count), Body: adminBody, Name: "ok.example."}
+}
+
 // c05Req: an encrypted-DNS request for ok.example A with the given shape.
 func c05Req(proto, path, host string, hasTLS bool, sni, conn string) c05Op {
 	return c05Op{Kind: "request", Proto: proto, Path: path, Host: host, HasTLS: hasTLS, SNI: sni, Conn: conn,
@@ -206,6 +218,8 @@ func (o c05Op) String() string {
 		return s
 	case "note":
 		return o.Text
+	case "addrproc-burst":
+		return fmt.Sprintf("burst of %d queries (A %s) from %d distinct new client addresses while the address processor's reverse lookup is held up, then POST /control/access/set %s, then the lookup goes on", o.Qtype, o.Name, o.Qtype, o.Body)
 	case "request":
 		q := fmt.Sprintf("%s %s from %s", dns.TypeToString[o.Qtype], o.Name, o.Addr)
 		if o.Proto == "doh" {
@@ -257,6 +271,10 @@ type c05RigOpts struct {
 	// taken from the DoH path only); StrictSNI: tls.strict_sni_check
 	TLSName   string
 	StrictSNI bool
+	// AddrProc: the server processes new client addresses as home configures it
+	// (rDNS on, the client storage as the address updater); the Exchanger is the
+	// server's own Exchange behind a gate the harness can close.
+	AddrProc bool
 }
 
 type c05Rig struct {
@@ -294,12 +312,73 @@ type c05Rig struct {
 	inflight map[int64]c05Flight
 	flSeq    int64
 
+	// gate of the address processor's reverse lookups: nil = open
+	rdnsMu   sync.Mutex
+	rdnsGate chan struct{}
+	rdnsSeen atomic.Int64
 	// dnsproxy numbers the requests; HandleBefore files the ClientID under that
 	// number for processInitial to pick up
 	reqID atomic.Uint64
 	// outcomes of the shaped requests (kind "request"), by protocol and result
 	reqMu       sync.Mutex
 	reqOutcomes map[string]int
+}
+
+// Exchange implements rdns.Exchanger: Server.Exchange (which takes
+// serverLock.RLock) behind the gate.
+func (g *c05Rig) Exchange(ip netip.Addr) (host string, ttl time.Duration, err error) {
+	g.rdnsSeen.Add(1)
+	g.rdnsMu.Lock()
+	gate := g.rdnsGate
+	g.rdnsMu.Unlock()
+	if gate != nil {
+		<-gate
+	}
+	return g.s.Exchange(ip)
+}
+
+// burst carries out an "addrproc-burst" operation.
+func (g *c05Rig) burst(op c05Op) {
+	gate := make(chan struct{})
+	g.rdnsMu.Lock()
+	g.rdnsGate = gate
+	g.rdnsMu.Unlock()
+	n := int(op.Qtype)
+	var wg sync.WaitGroup
+	var returned atomic.Int64
+	base := g.reqID.Add(1) % 200
+	for i := 0; i < n; i++ {
+		wg.Add(1)
+		go func(i int) {
+			defer wg.Done()
+			defer returned.Add(1)
+			g.guard(func() string { return op.String() }, func() {
+				g.query(c05Op{Kind: "query", Name: op.Name, Qtype: dns.TypeA, Addr: fmt.Sprintf("198.%d.%d.%d", 18+base%2, i/250, 1+i%250)})
+			})
+		}(i)
+	}
+	// let the queries get as far as they get while the lookup is held up (an
+	// ordering aid only: whatever the order, everything must finish once the
+	// gate is open)
+	for k, last := 0, int64(-1); k < 40; k++ {
+		time.Sleep(25 * time.Millisecond)
+		if r := returned.Load(); r == int64(n) || (r == last && k > 8) {
+			break
+		} else {
+			last = r
+		}
+	}
+	wg.Add(1)
+	go func() {
+		defer wg.Done()
+		g.exec(c05HTTP("POST", "/control/access/set", op.Body))
+	}()
+	time.Sleep(100 * time.Millisecond)
+	g.rdnsMu.Lock()
+	g.rdnsGate = nil
+	g.rdnsMu.Unlock()
+	close(gate)
+	wg.Wait()
 }
 
 func (g *c05Rig) reqOutcome(op c05Op, what string) {
@@ -543,7 +622,14 @@ func c05NewRig(t *testing.T, o c05RigOpts) *c05Rig {
 		t.Fatalf("NewServer: %v", err)
 	}
 	upsAddr := c05StartUpstream(t)
+	var apc *client.DefaultAddrProcConfig
+	if o.AddrProc {
+		// home.newServerConfig: the DNS server itself is the exchanger, the client
+		// storage the updater
+		apc = &client.DefaultAddrProcConfig{Exchanger: g, AddressUpdater: g.storage, UseRDNS: true}
+	}
 	if err = g.s.Prepare(&ServerConfig{
+		AddrProcConf:   apc,
 		UDPListenAddrs: []*net.UDPAddr{{IP: net.IP{127, 0, 0, 1}}},
 		TCPListenAddrs: []*net.TCPAddr{{IP: net.IP{127, 0, 0, 1}}},
 		TLSConf:        &TLSConfig{ServerName: o.TLSName, StrictSNICheck: o.StrictSNI},
@@ -681,6 +767,9 @@ func (g *c05Rig) exec(op c05Op) (code int) {
 		return 0
 	case "request":
 		g.guard(func() string { return what() }, func() { g.request(op) })
+		return 0
+	case "addrproc-burst":
+		g.burst(op)
 		return 0
 	}
 	return 0
